@@ -508,6 +508,15 @@ func famPlan(tr *Trace, scratch string, seed int64, tier string, workers int) M 
 			{{Type: "dir", Dst: "/var/cache", Fi: own, HasFi: true}},
 			{{Type: "dir", Dst: "/opt"}, {Type: "dir", Dst: "/usr/local/bin", Fi: own, HasFi: true}, {Type: "file", Src: "e/app.conf", Dst: "/usr/local/bin/x"}},
 			{{Type: "file", Src: "e/app.conf", Dst: "/etc/x/y"}, {Type: "dir", Dst: "/etc"}},
+			// a tree / a directory whose destination is the root itself
+			{{Type: "tree", Src: "r", Dst: "/"}},
+			{{Type: "tree", Src: "r", Dst: ""}, {Type: "file", Src: "e/app.conf", Dst: "/share/extra"}},
+			{{Type: "dir", Dst: "/", Fi: own, HasFi: true}, {Type: "file", Src: "e/app.conf", Dst: "/x"}},
+			{{Type: "tree", Src: "r", Dst: "/"}, {Type: "tree", Src: "e", Dst: "/."}},
+			// a declared directory that a later tree also brings (not a distribution-owned path), both orders
+			{{Type: "dir", Dst: "/opt/x/share", Fi: own, HasFi: true}, {Type: "tree", Src: "r", Dst: "/opt/x"}},
+			{{Type: "tree", Src: "r", Dst: "/opt/x"}, {Type: "dir", Dst: "/opt/x/share", Fi: own, HasFi: true}},
+			{{Type: "tree", Src: "r", Dst: "/opt/x"}, {Type: "tree", Src: "r", Dst: "/opt/x/"}},
 		}
 		for _, l := range lists {
 			for _, pk := range []string{"deb", "rpm"} {
